@@ -63,7 +63,25 @@ def explorer_units():
         pass
     from . import histories
     histories.selftest()
+    pool_survives_worker_death()
     return 0
+
+
+def _pool_probe(task, p):
+    import ctypes
+    if task == 3:
+        ctypes.string_at(0)          # segmentation fault inside a worker
+    if task == 5:
+        os._exit(7)
+    p.count("t", evaluations=1)
+
+
+def pool_survives_worker_death():
+    """A worker that dies must neither hang the run nor go unnoticed."""
+    c = core.Ctx("CXX", "quick", 0)
+    c.pmap(_pool_probe, list(range(12)), nproc=4)
+    assert c.subs["t"]["evaluations"] == 10, c.subs
+    assert len(c.violations) == 2 and all(v["sub"] == "process_death" for v in c.violations), c.violations
 
 
 def main():
